@@ -588,3 +588,7 @@ def replay(run, data) -> None:
         compare_deliveries(run, text, opts, ref, dl, 'replay')
     run.case(case, True, sample=case, tag='replay')
     run.case('pad', True)
+
+
+# (kept at the end of the file so that the text above stays the description the check was first built to)
+RULE += ' ' + "Later additions: focused core over the remaining punctuation (' ; = , } #); the iterator protocol and skipping_newlines() compared with the token trace; an unrelated tokenizer dropped with a pending pushed-back token before every third trace."
